@@ -105,7 +105,8 @@ func canary(h http.Handler) {
 	vsym.Assert(Do(h, BodyReq("PUT", "/bkt/canary", nil, b)).Code() == 200, "C09/canary-put")
 	g := Do(h, Req{Method: "GET", Path: "/bkt/canary"})
 	vsym.Assert(g.Code() == 200 && string(g.Body) == "canary", "C09/canary-get")
-	if vsym.Param("fullcanary", 0) == 1 && backendKind() != kindFsSingle { // (the single-bucket backend cannot create buckets)
+	// (the single-bucket backend cannot create buckets; under host-bucket routing every path names a key of bkt)
+	if vsym.Param("fullcanary", 0) == 1 && backendKind() != kindFsSingle && vsym.Param("opts", 0) != 1 {
 		vsym.Assert(Do(h, Req{Method: "PUT", Path: "/fresh-bucket"}).Code() == 200, "C09/canary-new-bucket")
 		vsym.Assert(Do(h, BodyReq("PUT", "/fresh-bucket/x", nil, b)).Code() == 200, "C09/canary-new-put")
 		g2 := Do(h, Req{Method: "GET", Path: "/fresh-bucket/x"})
